@@ -236,6 +236,41 @@ fn hostile_table_case<T: Sc>(rng: &mut Rng, case: u64, out: &mut CaseOut, ops: &
     exercise::<T>(&spec, &alphas, &cfg, out, ops);
 }
 
+/// (ix) observations that are exactly zero: the optimizer stops with zero residuals before it ever asks
+/// for a Jacobian, the fit counts as successful, and the statistics are the first code to see the
+/// derivatives - which are hostile here while the basis functions themselves are finite
+fn zero_residual_case<T: Sc>(rng: &mut Rng, case: u64, out: &mut CaseOut, ops: &OpLog) {
+    let m = rng.int(1, 4);
+    let p = rng.int(1, 3);
+    let n = m + p + rng.int(1, 6);
+    let s = if rng.chance(0.8) { 1 } else { rng.int(2, 3) };
+    let ph = *rng.pick(&[0.05, 0.3, 1.0]);
+    let mut nh = 0;
+    let base = Mat::from_fn(n, m, |_, _| rng.normal());
+    let slope: Vec<Mat> = (0..p).map(|_| Mat::from_fn(n, m, |_, _| rng.normal())).collect();
+    // the derivative tables the model reports: the true slopes with hostile entries
+    let dbad: Vec<Mat> = slope
+        .iter()
+        .map(|sl| {
+            let mut d = sl.clone();
+            nh += hostile_vec(rng, &mut d.d, ph);
+            d
+        })
+        .collect();
+    let y = Mat::from_fn(n, s, |_, _| if rng.chance(0.5) { 0.0 } else { -0.0 });
+    let w = if rng.chance(0.5) { Some((0..n).map(|_| rng.range(0.1, 3.0) * rng.sign()).collect()) } else { None };
+    let alpha0: Vec<f64> = (0..p).map(|_| rng.normal()).collect();
+    let spec = ProblemSpec { model: ModelKind::BadDeriv(Box::new(ModelKind::Table { n, m, p, base, slope }), dbad), alpha0, y, w, eps: None, mrhs: s > 1, par: rng.chance(0.3) };
+    out.nontrivial.push(spec.hash());
+    out.seen("classes", "zero observations, hostile derivatives");
+    out.add("hostile_values_injected", nh);
+    let cfg = if rng.chance(0.5) { LmCfg::default_cfg() } else { LmCfg::random(rng) };
+    if case < 16 {
+        out.sample(json!({"class": "zero-observations", "N": n, "M": m, "P": p, "S": s, "hostile_values": nh}));
+    }
+    exercise::<T>(&spec, &[], &cfg, out, ops);
+}
+
 /// (viii) whatever the model builder accepts must be usable: models built from random (near-valid)
 /// builder programs with closures of arbitrary arity are evaluated, differentiated and fitted
 fn builder_program_case(rng: &mut Rng, case: u64, out: &mut CaseOut, ops: &OpLog) {
@@ -300,18 +335,25 @@ pub fn case(rng: &mut Rng, case: u64, out: &mut CaseOut, ops: &OpLog) {
                 hostile_zoo_case::<f64>(rng, case, out, ops)
             }
         }
-        _ => {
+        7..=8 => {
             if f32_ {
                 hostile_table_case::<f32>(rng, case, out, ops)
             } else {
                 hostile_table_case::<f64>(rng, case, out, ops)
             }
         }
+        _ => {
+            if f32_ {
+                zero_residual_case::<f32>(rng, case, out, ops)
+            } else {
+                zero_residual_case::<f64>(rng, case, out, ops)
+            }
+        }
     }
 }
 
 pub fn run(ctx: &Ctx) {
-    ctx.rule("cases: (a) multi-exponential fits from random starts (tau in [-10,10], 0.2x-5x and -1x..3x the truth) under default and random optimizer settings; (b) zoo problems with values from the hostile IEEE-754 pool {0,-0,+-1,NaN,+-inf,+-MAX,MIN_POSITIVE,5e-324,1e+-300,1e+-154,...} substituted into x, y, w, alpha, epsilon with probability 0.02..0.6; (d) models accepted by the model builder from random near-valid builder programs (closures of arity 1..10) are evaluated, differentiated and fitted; (c) table models N=1..9 (including N<M), M=1..4, P=1..3, S=1..3 with hostile entries in values and derivatives; 30% f32; each case = build, 0..3 parameter updates with queries, fit, fit_with_statistics and every statistics accessor, executed in a child process under a CPU-time watchdog. distinct = hash of the generated problem; non-trivial = hostile value injected or random start");
+    ctx.rule("cases: (a) multi-exponential fits from random starts (tau in [-10,10], 0.2x-5x and -1x..3x the truth) under default and random optimizer settings; (b) zoo problems with values from the hostile IEEE-754 pool {0,-0,+-1,NaN,+-inf,+-MAX,MIN_POSITIVE,5e-324,1e+-300,1e+-154,...} substituted into x, y, w, alpha, epsilon with probability 0.02..0.6; (d) models accepted by the model builder from random near-valid builder programs (closures of arity 1..10) are evaluated, differentiated and fitted; (c) table models N=1..9 (including N<M), M=1..4, P=1..3, S=1..3 with hostile entries in values and derivatives; (e) exactly zero observations with finite basis functions and hostile derivatives (the fit succeeds without ever requesting a Jacobian, so the statistics meet the derivatives first); 30% f32; each case = build, 0..3 parameter updates with queries, fit, fit_with_statistics and every statistics accessor, executed in a child process under a CPU-time watchdog. distinct = hash of the generated problem; non-trivial = hostile value injected or random start");
     ctx.assume(&format!("liveness restated as bounded progress: every case returns within {CPU_BUDGET_S} CPU-seconds (isolated replay: 3x), >=100x the slowest legitimately terminating case of this corpus"));
     ctx.assume("panics are caught inside the child (catch_unwind) and reported as events; the panic location decides whether the subject or the harness panicked");
     let n = ctx.tier.pick(10000, 600000);
